@@ -70,13 +70,13 @@ def c01():
 
 
 def c03():
-    from harness import symtab
-    return [symtab.SymbolTable()]
+    from harness import symtab, pipeline
+    return [symtab.SymbolTable(), pipeline.ClassicBuilds()]
 
 
 def c02():
-    from harness import rewrites
-    return [rewrites.OutputOptimize(), rewrites.BriefChain()]
+    from harness import rewrites, pipeline
+    return [rewrites.OutputOptimize(), rewrites.BriefChain(), pipeline.BuildsAgree()]
 
 
 def c14():
